@@ -526,6 +526,7 @@ pub fn property() -> Property {
     Property {
         id: "C02",
         subs: vec![sub::<Builder>(), sub::<Table>(), sub::<Big>()],
+        fuzz: vec![FuzzSpec { target: "bdd_ops", runs: 60000, max_len: 400 }, FuzzSpec { target: "tables", runs: 150000, max_len: 500 }],
         assumptions: vec![
             "functions over <= 8 variables for the truth-table keyed canonicity map; <= 60 operations",
             "per-key hashes are functions of the key; <= 40 keys per table history (no flood of > 255 identical hashes)",
